@@ -311,6 +311,52 @@ def state_status(prog, modname, state, order_relevant=None):
     return analyse_state(prog, m, state, funcs, set(ORDER_RELEVANT if order_relevant is None else order_relevant))[0]
 
 
+def factory_class_stores(prog, f):
+    """stores `K.attr = <value depending on f's parameters>` where K denotes a class (a name resolving to a class of the package, or a
+    local bound only to such names) of which f also creates and returns an instance: per-instance configuration placed on the class
+    is shared by every instance, the one returned earlier included.  -> [(node, class names, attr)]"""
+    own = _own_nodes(f.node)
+    params = set(f.params)
+    class_locals = {}
+    for n in own:
+        if isinstance(n, ast.Assign):
+            for t, v in ([(n.targets[0], n.value)] if not (isinstance(n.targets[0], ast.Tuple) and isinstance(n.value, ast.Tuple) and len(n.targets[0].elts) == len(n.value.elts))
+                         else list(zip(n.targets[0].elts, n.value.elts))):
+                if isinstance(t, ast.Name) and isinstance(v, ast.Name):
+                    r = prog.resolve(f.mod, v)
+                    if r is not None and r[0] == 'class':
+                        class_locals.setdefault(t.id, set()).add(r[1].name)
+                    else:
+                        class_locals.setdefault(t.id, set()).add(None)
+                elif isinstance(t, ast.Name):
+                    class_locals.setdefault(t.id, set()).add(None)
+
+    def classes_of(e):
+        if not isinstance(e, ast.Name):
+            return None
+        if e.id in class_locals:
+            return None if None in class_locals[e.id] else class_locals[e.id]
+        if e.id in params:
+            return None
+        r = prog.resolve(f.mod, e)
+        return {r[1].name} if r is not None and r[0] == 'class' else None
+    created = set()
+    for n in own:
+        if isinstance(n, ast.Call):
+            cs = classes_of(n.func)
+            if cs:
+                created |= cs
+    out = []
+    for n in own:
+        if isinstance(n, ast.Assign):
+            for t in n.targets:
+                if isinstance(t, ast.Attribute):
+                    cs = classes_of(t.value)
+                    if cs and cs & created and _mentions(n.value, params):
+                        out.append((n, sorted(cs), t.attr))
+    return out
+
+
 def hidden_state(ctx, prog, clause, modnames, order_relevant=()):
     """one obligation per anchored module ("no hidden module-level state") or per written state name"""
     order_relevant = set(order_relevant)
@@ -326,6 +372,10 @@ def hidden_state(ctx, prog, clause, modnames, order_relevant=()):
         for f in fs:
             for s, node, desc in writes_of(f, names):
                 written.setdefault(s, []).append((f, node, desc))
+        for f in fs:
+            for node, cs, attr in factory_class_stores(prog, f):
+                ctx.fail(clause, f'{f.key}::{norm(node)[:80]}', f'{f.qualname} stores `{attr}` - a value that depends on its arguments - on the class {"/".join(cs)} and returns an instance of it: the attribute is shared by every '
+                         f'instance, so an object created earlier starts using the configuration of the one created last', f.where(node))
         if not written:
             ctx.ok(clause, f'{mn}::no hidden state', f'{len(fs)} functions: none assigns a global, stores into or mutates a module-level name', m.relpath)
             continue
